@@ -34,6 +34,7 @@ type Verifier struct {
 	prelude        string
 	heapKeys       map[string]heapKeyInfo
 	typeIDs        map[string]int
+	typeOfID       map[int]types.Type
 	assumptions    map[string]bool
 	closureOf      map[string]*Closure
 	rangeOf        map[*ssa.Range]mapInfoT
@@ -60,7 +61,7 @@ type wsResult struct {
 }
 
 func NewVerifier(repo, verifDir string) (*Verifier, error) {
-	v := &Verifier{repo: repo, verifDir: verifDir, specs: NewSpecSet(), lits: NewLitTable(), heapKeys: map[string]heapKeyInfo{}, typeIDs: map[string]int{},
+	v := &Verifier{repo: repo, verifDir: verifDir, specs: NewSpecSet(), lits: NewLitTable(), heapKeys: map[string]heapKeyInfo{}, typeIDs: map[string]int{}, typeOfID: map[int]types.Type{},
 		assumptions: map[string]bool{}, closureOf: map[string]*Closure{}, rangeOf: map[*ssa.Range]mapInfoT{}, mutatedGlobals: map[string]bool{},
 		fnByKey: map[string]*ssa.Function{}, keyOfFn: map[*ssa.Function]string{}, writeSets: map[*ssa.Function]*wsResult{}, sites: map[*ssa.Function]map[ssa.Instruction][]string{},
 		sentinels: map[string]bool{}}
@@ -233,6 +234,16 @@ func (v *Verifier) computeFnKey(f *ssa.Function) string {
 
 func (v *Verifier) contractFor(f *ssa.Function) *FuncContract {
 	return v.specs.Funcs[v.fnKey(f)]
+}
+
+func (v *Verifier) typeByID(id int) types.Type {
+	return v.typeOfID[id]
+}
+
+func (v *Verifier) typeIDOf(t types.Type) int {
+	id := v.typeID(typeKey(t))
+	v.typeOfID[id] = t
+	return id
 }
 
 func (v *Verifier) typeID(name string) int {
